@@ -59,6 +59,8 @@ type c10Scenario struct {
 	RelativeOutDir bool
 	// name of the output directory when not "out"
 	OutName string
+	// short camera connections served by the same daemon before the one under observation
+	PreludeConns int
 	// the uncrashed run must leave at least this many complete recordings in the output directory
 	WantComplete int
 	// that many finished recordings are already waiting in the output directory and in
@@ -185,6 +187,11 @@ func c10Scenarios() []c10Scenario {
 	c15.MaxSecs = 2
 	s15 := c10Scenario{Name: "S15", What: "the output directory's name contains characters that mean something to file-name patterns ('[', ']', '*', '?'); constant recorder on, with a motion recording", Cfg: c15, Cam: cam, Frames: c10Frames(cam, "ffffmmmffffffffffffff"), OutName: "out [site 7] *?"}
 	out = append(out, s15)
+	c16 := base()
+	c16.Constant = true
+	c16.MaxSecs = 2
+	s16 := c10Scenario{Name: "S16", What: "the third camera connection of one daemon run (two short ones before it); constant recorder on, with a motion recording", Cfg: c16, Cam: cam, Frames: c10Frames(cam, "ffffmmmffffffffffffff"), PreludeConns: 2}
+	out = append(out, s16)
 	c9 := base()
 	c9.Throttle, c9.BucketSize, c9.MinRefill = true, "3s", "200ms"
 	c9.MaxSecs = 30
@@ -435,6 +442,22 @@ func TestVerif_C10Child(t *testing.T) {
 		}
 		return nil
 	}
+	for i := 0; i < sc.PreludeConns; i++ {
+		// earlier connections of the same daemon run (same configuration object), not observed
+		pre := c10Frames(sc.Cam, "ffffff")
+		r.serve(func(w io.Writer) error {
+			if _, err := w.Write(hdr); err != nil {
+				return err
+			}
+			for _, f := range pre {
+				if _, err := w.Write(f.raw(sc.Cam)); err != nil {
+					return err
+				}
+				time.Sleep(2 * time.Millisecond)
+			}
+			return nil
+		}, nil)
+	}
 	r.serve(feed, hook)
 	// S8 repetitions: whether the two starts share a millisecond is up to the clock,
 	// so the same connection is replayed several times in fresh directories
@@ -513,7 +536,7 @@ func TestVerif_C10(t *testing.T) {
 	defer c.Finish()
 	scratch := vEnv("VERIF_SCRATCH", t.TempDir())
 	scs := c10Scenarios()
-	quickSet := map[string]bool{"S1": true, "S3": true, "S4": true, "S5": true, "S6": true, "S8": true, "S10": true, "S11": true, "S12": true, "S13": true, "S14": true, "S15": true}
+	quickSet := map[string]bool{"S1": true, "S3": true, "S4": true, "S5": true, "S6": true, "S8": true, "S10": true, "S11": true, "S12": true, "S13": true, "S14": true, "S15": true, "S16": true}
 	for si, sc := range scs {
 		if !c.Thorough() && !quickSet[sc.Name] {
 			continue
